@@ -16,11 +16,40 @@ class GrowList(Model):
         self.loop_local = True
 
     @classmethod
-    def symbolic(cls, ctx, name="rval"):
+    def symbolic(cls, ctx, name="rval", sort=None):
         n = ctx.int(name + ".len", record=False)
         ctx.assume(n >= 0, definitional=True)
-        arr = z3.Array(ctx.fresh_name(name + ".items"), z3.IntSort(), z3.RealSort())
+        arr = z3.Array(ctx.fresh_name(name + ".items"), z3.IntSort(), sort if sort is not None else z3.RealSort())
         return cls(n, arr)
+
+    def _lift(self, interp, it, node):
+        if self.arr.range() == z3.StringSort():
+            from .stubs import sstr_to_z3
+            z = sstr_to_z3(it)
+            if z is None:
+                raise Unsupported("non-string item appended to a list of commands: %r" % (it,), node)
+            return z
+        return to_real(interp.num(it, node))
+
+    def append_item(self, interp, it, node):
+        it = interp.deref(it)
+        interp.ctx.log_write(self, "[]")
+        self.arr = z3.Store(self.arr, self.n, self._lift(interp, it, node))
+        self.n = self.n + 1
+
+    def extend_seq(self, interp, seq, node):
+        """Concatenate a symbolic sequence (fresh array with the two defining quantified facts)."""
+        ctx = interp.ctx
+        ctx.log_write(self, "[]")
+        m = seq.length
+        new = z3.Array(ctx.fresh_name("concat.items"), z3.IntSort(), self.arr.range())
+        q = z3.Int("q!cat%d" % next_oid())
+        old, n = self.arr, self.n
+        ctx.assumed.add("A2:list.extend concatenates (list semantics)")
+        ctx.assume(z3.And(z3.ForAll([q], z3.Implies(z3.And(q >= 0, q < n), z3.Select(new, q) == z3.Select(old, q))),
+                          z3.ForAll([q], z3.Implies(z3.And(q >= 0, q < m), z3.Select(new, n + q) == seq.get(q)))), definitional=True)
+        self.arr = new
+        self.n = n + m
 
     @property
     def length(self):
@@ -33,7 +62,7 @@ class GrowList(Model):
         items = other.items if isinstance(other, PyList) else list(other)
         interp.ctx.log_write(self, "[]")
         for it in items:
-            self.arr = z3.Store(self.arr, self.n, to_real(interp.num(it, node)))
+            self.arr = z3.Store(self.arr, self.n, self._lift(interp, it, node))
             self.n = self.n + 1
         return self
 
@@ -44,6 +73,18 @@ class GrowList(Model):
             return SymSeq(self.n, self.get, name="rval")
         if name == "__bool__":
             return self.n > 0
+        if name == "append":
+            self.append_item(interp, args[0], node)
+            return None
+        if name == "extend":
+            other = args[0]
+            if isinstance(other, SymSeq):
+                self.extend_seq(interp, other, node)
+                return None
+            items = other.items if isinstance(other, PyList) else list(other)
+            for it in items:
+                self.append_item(interp, it, node)
+            return None
         raise Unsupported("list.%s on a growing list" % name, node)
 
     def copy(self, memo=None):
